@@ -2,10 +2,11 @@
    Only statements; each is closed by [exact] of a lemma from Proofs/ and followed by
    Print Assumptions.  Part 1: contiguous_index_queue (every thread count, every
    operation mix, every schedule, spurious weak-CAS failures). *)
-From Coq Require Import List NArith.
+From Coq Require Import List NArith Permutation Lia.
 From Pika Require Import Base.Conc Model.IndexQueue Proofs.IndexQueueProofs.
 From Pika Require Import Model.DequeSpec Model.Deque Model.DequeWitness Proofs.DequeProofs.
 From Pika Require Import Model.DequeExplore Proofs.DequeBoundedProofs Proofs.DequeSafetyProofs.
+From Pika Require Import Model.DequeLin Proofs.DequeConcDefs Proofs.DequeConcProofs Proofs.DequeLinProofs.
 From Pika Require Import Gen.GenBackends Model.Backends Proofs.BackendsProofs.
 Import ListNotations.
 Local Open Scope N_scope.
@@ -174,6 +175,119 @@ Theorem C17_deque_linearizable_guarded_partial : forall k init progs sched,
   exists ls', (forall t, snd c t = lget ls' t) /\ length ls' = length progs /\ conserved (fst c) ls' = true.
 Proof. exact deque_linearizable_guarded_partial_lemma. Qed.
 Print Assumptions C17_deque_linearizable_guarded_partial.
+
+(* 2.5 The concurrent theorems under the NO-REUSE guard: for EVERY pool size, every assignment of
+   programs to threads (any number of threads) and EVERY schedule of the faithful model in which
+   the pool never hands out a chunk that it has handed out before.
+   The guard is the ghost flag [greuse] of the instrumented step [dq_tstep_i] (Model/DequeLin.v):
+   the instrumentation runs [dq_tstep] unchanged and records (a) whether pool_.allocate() ever
+   returned a chunk whose epoch was not 0 and (b) the linearization log [glin] — one event per
+   linearization point: the successful anchor CAS of a push, the successful anchor CAS of a pop
+   (with the data of the node it unlinks), the anchor load of a pop that sees a null end pointer.
+   (Because the freelist is LIFO, a guarded run is one in which no push starts after the first
+   FREE; pushes, pops, helping and all CAS races before that point are unrestricted.  Without the
+   guard the statement is false: C17_deque_aba_refuted.) *)
+
+(* the instrumentation erases: shared state and locals are those of the plain run *)
+Theorem C17_deque_instrumentation_erases : forall k progs sched,
+  fst (fst (dq_run_i sched k progs)) = fst (dq_run sched k progs) /\
+  snd (dq_run_i sched k progs) = snd (dq_run sched k progs).
+Proof. exact dq_run_i_erase. Qed.
+Print Assumptions C17_deque_instrumentation_erases.
+
+(* (1) Michael's chain invariant ([chain_invariant], Proofs/DequeLinProofs.v): the anchor points at
+   the two ends of a chain c that is doubly linked from left to right, except possibly the outward
+   link of the old end node next to a freshly pushed end node while the status is rpush/lpush; all
+   nodes of the chain and all unlinked-but-not-yet-freed nodes are distinct, allocated, not freed,
+   not nullptr; nobody has dereferenced nullptr. *)
+Theorem C17_deque_chain_invariant_noreuse : forall k progs sched,
+  let ci := dq_run_i sched k progs in
+  fst (fst ci) = fst (dq_run sched k progs) /\ snd ci = snd (dq_run sched k progs) /\
+  (greuse (snd (fst ci)) = false ->
+   exists c pend, chain_invariant (fst (dq_run sched k progs)) (snd (dq_run sched k progs)) c pend).
+Proof. exact deque_chain_invariant_noreuse_lemma. Qed.
+Print Assumptions C17_deque_chain_invariant_noreuse.
+
+(* (2) conservation: pushed = popped + chain + (nodes unlinked by a pop CAS whose value has not
+   been read yet), as multisets; hence nothing is delivered more often than it was pushed (no
+   duplicate, nothing invented); when no thread stands between its pop CAS and FREE (e.g. all
+   threads are done) pushed = popped + chain, nothing is lost; and when the status is stable the
+   chain's values are what a walk from the left end along the right links reads. *)
+Theorem C17_deque_conservation_noreuse : forall k progs sched,
+  let ci := dq_run_i sched k progs in
+  let g := fst (dq_run sched k progs) in let ls := snd (dq_run sched k progs) in
+  greuse (snd (fst ci)) = false ->
+  exists c pend, chain_invariant g ls c pend /\
+    Permutation (pushed_vals (dlog g)) (popped_vals (dlog g) ++ vals g c ++ vals g pend) /\
+    (forall v, (count_occ_N v (popped_vals (dlog g)) <= count_occ_N v (pushed_vals (dlog g)))%nat) /\
+    ((forall t s a, dpc (ls t) <> QFree s a) ->
+     Permutation (pushed_vals (dlog g)) (popped_vals (dlog g) ++ vals g c)) /\
+    (ast (anc g) = Stable -> dq_contents (length c) g = vals g c).
+Proof. exact deque_conservation_noreuse_lemma. Qed.
+Print Assumptions C17_deque_conservation_noreuse.
+
+(* (3) linearizability against the two-ended list with the successful anchor CASes (and the
+   empty-seeing anchor loads) as linearization points: the linearization log, read oldest first,
+   is a legal sequential history of the list specification starting from the empty list — every
+   result in it is the result the list gives — and it ends in the abstract contents (the values
+   of the chain); and it agrees, thread by thread, with what the threads have reported ([dlog]),
+   up to the one pop per thread that has been linearized by its CAS but has not reported yet.
+   (Each linearization point is a step of the operation itself, so real-time order is respected
+   by construction; pushes report at their linearization point.) *)
+Theorem C17_deque_linearizable_noreuse : forall k progs sched,
+  let ci := dq_run_i sched k progs in
+  let g := fst (dq_run sched k progs) in let ls := snd (dq_run sched k progs) in
+  let lin := glin (snd (fst ci)) in
+  greuse (snd (fst ci)) = false ->
+  exists c pend, chain_invariant g ls c pend /\
+    spec_run (log_ops lin) [] = (log_res lin, vals g c) /\
+    (forall t, of_tid t lin = pending t g (ls t) ++ of_tid t (dlog g)).
+Proof. exact deque_linearizable_noreuse_lemma. Qed.
+Print Assumptions C17_deque_linearizable_noreuse.
+
+(* (3') the same as a step-by-step simulation: from any state satisfying the invariant [Core]
+   (chain invariant + register invariants of all threads), any step of any thread that does not
+   re-allocate a chunk preserves it and is labelled ([Trans], Proofs/DequeConcDefs.v) by what it does
+   to the abstract list: LDoPush s v (successful push CAS: v is added at end s), LPopOk s v
+   (successful pop CAS: v is removed from end s), LPopEmpty s (the list is empty), LFree (the value
+   is reported; list unchanged), LTau (everything else — loads, checks, failed CASes, the link
+   CAS and the anchor CAS of stabilize: list unchanged). *)
+Theorem C17_deque_step_refines_list_noreuse : forall t g (ls : locals dq_local) c pend,
+  Core g ls c pend -> reuse_event g (ls t) = false ->
+  let g' := fst (dq_tstep tt t g (ls t)) in let l' := snd (dq_tstep tt t g (ls t)) in
+  exists c' pend' lab, Core g' (upd ls t l') c' pend' /\ Trans t g (ls t) c pend lab g' l' c' pend'.
+Proof. exact deque_step_refines_noreuse_lemma. Qed.
+Print Assumptions C17_deque_step_refines_list_noreuse.
+
+(* (4) a pop reports "empty" only if the abstract list is empty at its anchor load *)
+Theorem C17_deque_empty_pop_noreuse : forall t g (ls : locals dq_local) c pend s,
+  Core g ls c pend -> reuse_event g (ls t) = false ->
+  dlog (fst (dq_tstep tt t g (ls t))) = ev t (Pop s) None :: dlog g ->
+  c = [] /\ al (anc g) = 0 /\ ar (anc g) = 0.
+Proof. exact deque_empty_pop_noreuse_lemma. Qed.
+Print Assumptions C17_deque_empty_pop_noreuse.
+
+(* non-vacuity of the guard: a concurrent run of four threads (Model/DequeLin.nr_sched: helping,
+   failed link CAS, failed anchor CASes, retries) satisfies it; the linearization order differs
+   from the reporting order (thread 2's pop is linearized before the push of 3 and thread 3's
+   pop, but reports last); after 37 steps thread 2 stands between its CAS and FREE *)
+Example C17_deque_noreuse_example :
+  let ci := dq_run_i nr_sched 4 nr_progs in
+  greuse (snd (fst ci)) = false /\
+  map (fun e => (dv_tid e, dv_op e, dv_res e)) (rev (glin (snd (fst ci)))) =
+    [(0%nat, Push SR 1, None); (0%nat, Push SR 2, None); (2%nat, Pop SL, Some 1);
+     (1%nat, Push SL 3, None); (3%nat, Pop SR, Some 2)] /\
+  map (fun e => (dv_tid e, dv_res e)) (rev (dlog (fst (fst ci)))) =
+    [(0%nat, None); (0%nat, None); (1%nat, None); (3%nat, Some 2); (2%nat, Some 1)] /\
+  dq_contents 1 (fst (fst ci)) = [3] /\ ast (anc (fst (fst ci))) = Stable /\
+  (forall t, (t < 4)%nat -> dq_done (snd ci t) = true) /\
+  let cm := dq_run_i (firstn 37 nr_sched) 4 nr_progs in
+  greuse (snd (fst cm)) = false /\ dpc (snd cm 2%nat) = QFree SL 1 /\
+  popped_vals (dlog (fst (fst cm))) = [] /\ length (glin (snd (fst cm))) = 3%nat.
+Proof.
+  vm_compute. repeat split; try reflexivity.
+  intros t H. do 4 (destruct t as [|t]; [reflexivity|]). exfalso. lia.
+Qed.
 
 (* ======================================================================================
    Part 3: the queue back-ends (lockfree_queue_backends.hpp); the table push_end / pop_end is
